@@ -36,7 +36,19 @@ Definition line_ok (c ln : Z) (l : list token) : bool :=
          && negb (kw_is (last l dummy_tok) s_async)
   end.
 
-(* a definition line: Some (name offset, end of the header shape) *)
+(* Python parenthesis groups, decided: only parentheses count *)
+Fixpoint pwalk (top : bool) (ts : list token) (depth : nat) : option nat :=
+  match ts with
+  | [] => Some depth
+  | t :: r =>
+      if is_lparen t then pwalk top r (S depth)
+      else if is_rparen t then match depth with O => None | S d => pwalk top r d end
+      else match depth with O => if top then pwalk top r O else None | S _ => pwalk top r depth end
+  end.
+Definition pgroups_b (ts : list token) : bool :=
+  match ts with [] => false | _ => match pwalk false ts O with Some O => true | _ => false end end.
+
+(* a definition header: Some (name offset, end of the header shape) *)
 Definition def_shape (l : list token) : option (nat * nat) :=
   let go (pre : nat) (r : list token) :=
     match r with
@@ -48,7 +60,7 @@ Definition def_shape (l : list token) : option (nat * nat) :=
           match rest with
           | [] => None
           | x :: _ =>
-              if groups_b gs && no_def_b gs && negb (is_lparen x) && no_def_b rest
+              if pgroups_b gs && no_def_b gs && negb (is_lparen x) && no_def_b rest
               then Some ((pre + 1)%nat, (pre + 2 + n)%nat) else None
           end
         else None
@@ -57,6 +69,40 @@ Definition def_shape (l : list token) : option (nat * nat) :=
   match l with
   | a :: r => if kw_is a s_async then go 1%nat r else go O l
   | [] => None
+  end.
+
+(* does the line begin like a definition? *)
+Definition starts_def (l : list token) : bool :=
+  match l with
+  | a :: r => kw_is a s_def || (kw_is a s_async && match r with d :: _ => kw_is d s_def | [] => false end)
+  | [] => false
+  end.
+
+(* physical lines are joined until the header's parenthesis groups are closed *)
+Fixpoint join_def (fuel : nat) (acc : list token) (lines : list (list token)) : option (list token * list (list token)) :=
+  match def_shape acc with
+  | Some _ => Some (acc, lines)
+  | None => match fuel, lines with
+            | S f, l :: r => join_def f (acc ++ l) r
+            | _, _ => None
+            end
+  end.
+
+(* head_at c ln hl l, decided *)
+Fixpoint mono_ok (c : Z) (l : list token) : bool :=
+  match l with
+  | a :: r => match r with
+              | b :: _ => (t_line a <=? t_line b) && (negb (t_line a <? t_line b) || (c <? t_col b)) && mono_ok c r
+              | [] => true
+              end
+  | [] => true
+  end.
+Definition head_ok (c ln hl : Z) (l : list token) : bool :=
+  match l with
+  | [] => false
+  | _ => (line_no l =? ln) && (line_col l =? c) && (t_line (last l dummy_tok) =? hl) && mono_ok c l
+         && forallb (fun t => negb (ends_with_str [92; 10] (t_value t))) l
+         && negb (kw_is (last l dummy_tok) s_async)
   end.
 
 (* entries of one block at column c: consumes lines while their column is c (deeper lines belong to the entry
@@ -70,25 +116,39 @@ Fixpoint py_block (fuel : nat) (c : Z) (off : nat) (lo : Z) (lines : list (list 
       | [] => None
       | l :: rest =>
           let ln := line_no l in
-          if negb (line_ok c ln l && (lo <? ln)) then None else
           (* the entry starting with l *)
           let entry : option (list pydesc * list (list token) * Z * nat) :=
-            match rest with
-            | l2 :: _ =>
-                if c <? line_col l2 then
-                  match py_block f (line_col l2) (off + length l) ln rest with
-                  | Some (ds, rest2, hi, used) =>
-                      match def_shape l with
-                      | Some (nmo, heo) =>
-                          Some (mkPd (off + nmo) off (off + heo) (off + length l) (off + length l + used) :: ds,
-                                rest2, hi, (length l + used)%nat)
-                      | None => if no_def_b l then Some (ds, rest2, hi, (length l + used)%nat) else None
-                      end
-                  | None => None
+            if starts_def l then
+              match join_def (length rest) l rest with
+              | Some (hdr, rest1) =>
+                  let hl := t_line (last hdr dummy_tok) in
+                  match def_shape hdr, rest1 with
+                  | Some (nmo, heo), l2 :: _ =>
+                      if head_ok c ln hl hdr && (lo <? ln) && forallb (fun t => t_line t =? hl) (skipn heo hdr)
+                         && (c <? line_col l2) then
+                        match py_block f (line_col l2) (off + length hdr) hl rest1 with
+                        | Some (ds, rest2, hi, used) =>
+                            Some (mkPd (off + nmo) off (off + heo) (off + length hdr) (off + length hdr + used) :: ds,
+                                  rest2, hi, (length hdr + used)%nat)
+                        | None => None
+                        end
+                      else None
+                  | _, _ => None
                   end
-                else if no_def_b l then Some ([], rest, ln, length l) else None
-            | [] => if no_def_b l then Some ([], rest, ln, length l) else None
-            end in
+              | None => None
+              end
+            else if negb (line_ok c ln l && (lo <? ln) && no_def_b l) then None
+            else
+              match rest with
+              | l2 :: _ =>
+                  if c <? line_col l2 then
+                    match py_block f (line_col l2) (off + length l) ln rest with
+                    | Some (ds, rest2, hi, used) => Some (ds, rest2, hi, (length l + used)%nat)
+                    | None => None
+                    end
+                  else Some ([], rest, ln, length l)
+              | [] => Some ([], rest, ln, length l)
+              end in
           match entry with
           | None => None
           | Some (ds1, rest1, mid, used1) =>
